@@ -16,7 +16,7 @@ type Scanner struct {
 	R      []rune
 	I      int
 	Reads  int
-	FailAt int // >= 0: ReadRune fails with ErrInjected once I >= FailAt
+	FailAt int  // >= 0: ReadRune fails with ErrInjected once I >= FailAt
 	Once   bool // the failure happens once (consuming nothing), then the reader recovers
 	Failed bool
 	Frozen bool // set by the harness when the call has returned
